@@ -468,6 +468,7 @@ func checkC17(w *World, r *Report) {
 	a.checkLoadersExhausted(r)
 	checkNamedFilterApplied(w, r)
 	checkImportsRenderLibrary(w, r, "R17.6")
+	checkDeferredOverwrites(w, r)
 }
 
 func uniqStrings(s []string) []string {
@@ -1174,4 +1175,68 @@ func overwrittenUnseen(c ssa.Instruction, fl *errFlow) bool {
 		}
 	}
 	return false
+}
+
+// checkDeferredOverwrites — R17.7: cleanup does not erase the failure.  A function literal that
+// is deferred and assigns the enclosing function's error result (`err = w.Flush()`,
+// `err = f.Close()`) does so only where that result is still nil: an unconditional assignment
+// replaces the error a render returned with the — usually nil — result of the cleanup.
+func checkDeferredOverwrites(w *World, r *Report) {
+	n := 0
+	for _, fn := range w.pkgFuncs() {
+		instrsOf(fn, func(in ssa.Instruction) {
+			d, ok := in.(*ssa.Defer)
+			if !ok {
+				return
+			}
+			mc, ok := d.Call.Value.(*ssa.MakeClosure)
+			if !ok {
+				return
+			}
+			g, ok := mc.Fn.(*ssa.Function)
+			if !ok {
+				return
+			}
+			for i, b := range mc.Bindings {
+				al, ok := b.(*ssa.Alloc)
+				if !ok || i >= len(g.FreeVars) || !types.Identical(deref(al.Type()), errorType) {
+					continue
+				}
+				fv := g.FreeVars[i]
+				if fv.Referrers() == nil {
+					continue
+				}
+				for _, ref := range *fv.Referrers() {
+					st, ok := ref.(*ssa.Store)
+					if !ok || st.Addr != ssa.Value(fv) {
+						continue
+					}
+					n++
+					guarded := false
+					for _, c := range controllingConds(st) {
+						var facts []condFact
+						expandCond(c, true, &facts, 0)
+						for _, cf := range facts {
+							bo, ok := cf.v.(*ssa.BinOp)
+							if !ok || (bo.Op != token.EQL && bo.Op != token.NEQ) {
+								continue
+							}
+							for _, pr := range [][2]ssa.Value{{bo.X, bo.Y}, {bo.Y, bo.X}} {
+								if u, ok := pr[0].(*ssa.UnOp); ok && u.X == ssa.Value(fv) && isNilConst(pr[1]) {
+									guarded = true
+								}
+							}
+						}
+					}
+					construct := "deferred assignment of the error result"
+					if guarded {
+						r.ok("R17.7", ssaName(g), construct, w.posOf(st.Pos()), "made only under a test of the result itself", true)
+					} else {
+						r.bad("R17.7", ssaName(g), construct, w.posOf(st.Pos()), "the deferred function assigns the enclosing function's error result whatever it holds: an error returned by the render is replaced by the result of the cleanup call, so a failed render reports success (and its partial output has been delivered)")
+					}
+				}
+			}
+		})
+	}
+	r.Counts["deferred assignments of an error result"] = n
 }
